@@ -8,8 +8,9 @@
   * `AnyValue` mirrors pcommon.Value (maps are ordered key/value lists, as pdata stores them);
   * `SVal` mirrors otelstef.AnyValue *including the storage a Go object keeps across re-use*:
     the array and key/value backing stores survive a change of type, `EnsureLen` only hides or
-    reveals elements and resets the values (not the keys) of revealed ones. This is what makes
-    the missing `i++` of `otlpValueToTefAnyValue`'s map case observable.
+    reveals elements and resets the values (not the keys) of revealed ones (before repo commit
+    571960a this made the missing `i++` of `otlpValueToTefAnyValue`'s map case observable; the
+    conversions now overwrite every revealed element).
 -/
 namespace Stef.Otlp
 
@@ -40,18 +41,6 @@ def int64Compare (a b : Nat) : Int :=
 /-- the bit pattern of -0.0 -/
 def negZero : Nat := two63
 
-/-- IEEE-754 double: NaN iff the magnitude bits exceed those of +inf. -/
-def fIsNaN (b : Nat) : Bool := decide (b % two63 > 0x7ff0000000000000)
-
-/-- order key of a non-NaN double: sign-magnitude read as an integer (both zeros give 0). -/
-def fKey (b : Nat) : Int := if b < two63 then (b : Int) else -((b - two63 : Nat) : Int)
-
-/-- Go `a < b` on float64 -/
-def fLt (a b : Nat) : Bool := !fIsNaN a && !fIsNaN b && decide (fKey a < fKey b)
-
-/-- Go `a == b` on float64 (false for NaN, true for +0 == -0) -/
-def fEq (a b : Nat) : Bool := !fIsNaN a && !fIsNaN b && decide (fKey a = fKey b)
-
 /-- float64OrderKey of go/pkg/types.go: a key whose unsigned order is the IEEE 754 total order
     (`^b` for negative patterns, `b | 1<<63` otherwise). -/
 def fOrderKey (b : Nat) : Nat := if b < two63 then b + two63 else two64 - 1 - b
@@ -68,16 +57,10 @@ def float64Equal (a b : Nat) : Bool := a == b
     59db810; before it the comparison was `s.f != v`, under which -0.0 was not stored over +0.0). -/
 def setF (old new : Nat) : Nat := if float64Equal old new then old else new
 
-/-- slices.Equal on []float64 -/
-def fSliceEq : List Nat → List Nat → Bool
-  | [], [] => true
-  | a :: as, b :: bs => fEq a b && fSliceEq as bs
-  | _, _ => false
-
-/-- Float64Array.CopyFromSlice: `if !slices.Equal(e.elems, src) { copy }` - still the float `==`
-    of Go (not covered by commit 59db810): bounds that differ only in the sign of a zero are not
-    stored. -/
-def setFSlice (old new : List Nat) : List Nat := if fSliceEq old new then old else new
+/-- Float64Array.CopyFromSlice: `if !slices.EqualFunc(e.elems, src, pkg.Float64Equal) { copy }`
+    (since repo commit 7828c58; before it `slices.Equal`, Go `==`, under which bounds that differed
+    from the stored ones only in the sign of a zero were not stored). -/
+def setFSlice (old new : List Nat) : List Nat := if old == new then old else new
 
 /-! ### OTLP side: pcommon.Value -/
 
@@ -258,7 +241,8 @@ def arrEnsureLen (store : SVals) (len n : Nat) : SVals :=
 def kvEnsureLen (store : SKVs) (len n : Nat) : SKVs :=
   SKVs.resetRange (min len n) (n - min len n) (SKVs.ensure n store)
 
-/-! ### OTLP -> STEF values, as written -/
+/-! ### OTLP -> STEF values (otlpval2tef.go). The same element-wise writes are what the generated
+    `CopyFrom` functions do with a source value. -/
 
 mutual
   /-- otlptools.otlpValueToTefAnyValue(val, into) -/
@@ -274,53 +258,20 @@ mutual
       | .mk c a al k kl => .mk c (sliceInto vs (arrEnsureLen a al vs.length)) vs.length k kl
     | .map kvs, into =>
       match into.setTypeKVList with
-      | .mk c a al k kl => .mk c a al (mapInto0 kvs (kvEnsureLen k kl kvs.length)) kvs.length
+      | .mk c a al k kl => .mk c a al (zipInto kvs (kvEnsureLen k kl kvs.length)) kvs.length
   /-- `for i := range slice { convert(slice[i], arr.At(i)) }` -/
   def sliceInto : Values → SVals → SVals
     | .nil, st => st
     | .cons v t, .cons s st => .cons (otlpToTef v s) (sliceInto t st)
     | .cons v t, .nil => .cons (otlpToTef v SVal.fresh) (sliceInto t .nil)
-  /-- the map case: `i := 0; Range(func(k, v) { kvList.SetKey(i, k); convert(v, kvList.Value(i)) })`
-      - `i` is never incremented, every entry is written over element 0. -/
-  def mapInto0 : KVs → SKVs → SKVs
+  /-- the map case `i := 0; Range(func(k, v) { kvList.SetKey(i, k); convert(v, kvList.Value(i)); i++ })`
+      (the `i++` is repo commit 571960a; before it every entry was written over element 0), and
+      equally `MapUnsorted` for top-level attribute maps: entry `i` goes into element `i`. -/
+  def zipInto : KVs → SKVs → SKVs
     | .nil, st => st
-    | .cons k v t, .cons _ s st => mapInto0 t (.cons k (otlpToTef v s) st)
-    | .cons k v t, .nil => mapInto0 t (.cons k (otlpToTef v SVal.fresh) .nil)
+    | .cons k v t, .cons _ s st => .cons k (otlpToTef v s) (zipInto t st)
+    | .cons k v t, .nil => .cons k (otlpToTef v SVal.fresh) (zipInto t .nil)
 end
-
-/-! ### OTLP -> STEF values with the index incremented (`fixed`): what the map case intends, and
-    also exactly what the generated `CopyFrom` functions do with a source value. -/
-
-mutual
-  def otlpToTefFixed : AnyValue → SVal → SVal
-    | .empty, into => into.reset
-    | .str s, into => into.setScalar (.str s)
-    | .bool b, into => into.setScalar (.bool b)
-    | .dbl f, into => into.setFloat f
-    | .int i, into => into.setScalar (.int i)
-    | .bytes b, into => into.setScalar (.bytes b)
-    | .slice vs, into =>
-      match into.setTypeArray with
-      | .mk c a al k kl => .mk c (sliceIntoFixed vs (arrEnsureLen a al vs.length)) vs.length k kl
-    | .map kvs, into =>
-      match into.setTypeKVList with
-      | .mk c a al k kl => .mk c a al (zipIntoFixed kvs (kvEnsureLen k kl kvs.length)) kvs.length
-  def sliceIntoFixed : Values → SVals → SVals
-    | .nil, st => st
-    | .cons v t, .cons s st => .cons (otlpToTefFixed v s) (sliceIntoFixed t st)
-    | .cons v t, .nil => .cons (otlpToTefFixed v SVal.fresh) (sliceIntoFixed t .nil)
-  def zipIntoFixed : KVs → SKVs → SKVs
-    | .nil, st => st
-    | .cons k v t, .cons _ s st => .cons k (otlpToTefFixed v s) (zipIntoFixed t st)
-    | .cons k v t, .nil => .cons k (otlpToTefFixed v SVal.fresh) (zipIntoFixed t .nil)
-end
-
-/-- top-level attribute maps (`MapUnsorted`): `out.EnsureLen(n)`, then entry `i` into element `i`
-    (here the index *is* incremented); nested values go through `otlpToTef`. -/
-def zipInto : KVs → SKVs → SKVs
-  | .nil, st => st
-  | .cons k v t, .cons _ s st => .cons k (otlpToTef v s) (zipInto t st)
-  | .cons k v t, .nil => .cons k (otlpToTef v SVal.fresh) (zipInto t .nil)
 
 /-! ### STEF -> OTLP values: tef2otlpval.go reads the visible part only -/
 
@@ -383,7 +334,7 @@ def mapSorted (m : KVs) (out : SAttrs) : SAttrs := mapUnsorted m.sortByKey out
 
 /-- Attributes.CopyFrom(src): element-wise setters with the source's logical content. -/
 def copyFrom (src : KVs) (dst : SAttrs) : SAttrs :=
-  { store := zipIntoFixed src (kvEnsureLen dst.store dst.len src.length), len := src.length }
+  { store := zipInto src (kvEnsureLen dst.store dst.len src.length), len := src.length }
 
 /-- otlptools.TefToOtlpMap -/
 def toOtlp (a : SAttrs) : KVs := KVs.dedup (dedupKVs a.visible)
